@@ -302,6 +302,10 @@ class Function(object):
                 for i, e in enumerate(b.raw_elems):
                     if isinstance(e, int):
                         pos[e] = (b.id, i)
+            # terminator statements (break / continue / if / while …) sit at the end of their block
+            for b in self.blocks.values():
+                if b.term and b.term.get("s", -1) >= 0 and b.term["s"] not in pos:
+                    pos[b.term["s"]] = (b.id, len(b.raw_elems))
             self._pos = pos
         return self._pos
 
